@@ -528,7 +528,7 @@ func runP1(p *Prog, r *Report) {
 			return true
 		})
 	}
-	r.ExpectMin("E4.P1-value-accessors", nVal, 35)
+	r.ExpectMin("E4.P1-value-accessors", nVal, 28)
 	r.ExpectMin("E4.P1-type-accessors", nTyp, 40)
 	r.Clauses = append(r.Clauses, "E4.P1 every panicking cty.Value accessor (AsString, True/False, AsBigFloat, AsValueMap/Slice/Set, GetAttr) and cty.Type accessor (ElementType, AttributeTypes, TupleElementTypes, …) is dominated by a kind guard on the same access path; values obtained by evaluating configuration additionally by non-null and known guards; unguarded uses of parameters become preconditions discharged at every in-module call site (depth ≤ 3)")
 	r.Assume("schema-owned cty values (LiteralValue.Value, DefaultValue.Value, IndexStep.Key) are known and non-null; parser literals of a primitive type are known and non-null; hcl evaluation without variables yields an unknown value only together with an error diagnostic")
